@@ -17,6 +17,11 @@ import FeatModel.Lemmas.C08Linear2
 import FeatModel.Lemmas.C08Alias
 import FeatModel.Lemmas.C08Filter
 import FeatModel.Lemmas.C08IluNC
+import FeatModel.Lemmas.C08Misc
+import FeatModel.Lemmas.C08Tiny
+import FeatModel.Lemmas.C08Expand
+import FeatModel.Lemmas.C08IluPI
+import FeatModel.Lemmas.C08IluPIMat
 /-!
 # C08 — preconditioners apply exactly their defining linear operator (property theorems)
 
@@ -38,8 +43,19 @@ a size are therefore invisible to the theorems below; they are tied to the code 
 polynomial degrees and block sizes just below / at / above 128, 256, 1000, (thorough) 32768, 65536, `INT_MAX`, 4..7),
 compared with the model and the independent oracle like every other case.
 
-Not proved here (observed by the correspondence run and the independent oracle only): the blocked ILU factorisation `L·U = A` (its solves are proved over an arbitrary ring; the factorisation is compared
-with the model run at bs×bs blocks), and the BCSR Jacobi / matrix variants.
+Not proved here (observed by the correspondence run and the independent oracle only):
+* that the driver's core-only block type `BMat bs` (row-major arrays, exact Gauss–Jordan / closed-formula inverse) is a
+  ring isomorphic to `Matrix (Fin bs) (Fin bs) ℚ` — the blocked ILU / SOR / SSOR theorems are stated over abstract rings
+  (and over Mathlib's matrix ring), the instance is tied by case-by-case comparison with the real BCSR code;
+* `Tiny::set_inverse` for the block sizes 4..6 (closed cofactor formulas) and ≥ 7 (generic elimination): not modelled
+  statement by statement (sizes 1..3 are, with `C08.tiny_inverse_spec`);
+* the blocked `copy_data_bcsr` and the blocked symbolic phase are the scalar model functions run at block values (proved
+  for any value type); blocked Jacobi / matrix / scale / diagonal are the scalar state machine on the expansion
+  (`C08.expand_commutes` covers `apply` and `extract_diag`; `component_invert` / `scale` / `component_product` on blocked
+  vectors are taken to act on the pod arrays);
+* `C08.polynomial_spec` (Neumann sum) is proved for the unit / none filter types; with a mean filter inside the loop only
+  the correspondence and the oracle check the result;
+* floating-point rounding, the 32-bit index instantiations, Vanka / AmaVanka / Schwarz / Uzawa preconditioners.
 -/
 open Finset FeatModel.LA FeatModel.Solver
 
@@ -311,25 +327,86 @@ theorem C08.sor_ssor_linear_blocked {K R V : Type} [Field K] [Ring R] [AddCommGr
   ⟨Blk.sorApply_linear inv ω hω fidx A hA hinv a b x x' hx hx' i hi,
     Blk.ssorApply_linear inv ω fidx A hA hinv a b x x' hx hx' i hi⟩
 
-/-- blocked ILU, `(LU)⁻¹` exactness of the factorisation over a NON-COMMUTATIVE ring: the executed `factorizeNumeric`
-    (merge pointers, `L_ij ← L_ij · D_jj⁻¹` from the right, `w_ik -= L_ij · U_jk`, `D_ii ← 1 / D_ii`) satisfies
-    `((I+L)(D+U))_{ic} = (input)_{ic}` on the pattern over every division ring (e.g. the quaternions), with all products
-    in the order the code uses — a left/right mix-up as in the former defect F2 would make this false.
-    `_partial`: bs×bs matrix blocks form a ring with PARTIAL inverses, not a division ring; the statement for blocks
-    whose pivots happen to be invertible is the same algebra but is not derived here (the factorisation run at bs×bs
-    rational blocks is compared with the real BCSR code on every case, and `C08.ilu_solve_spec_blocked` covers the
-    solves over any ring). -/
-theorem C08.ilu_factor_blocked_partial {α : Type} [DivisionRing α] (s : IluSym) (hs : s.wf = true)
-    (hso : s.sorted = true) (d0 : IluNum α)
-    (hl : d0.dataL.size = s.ciL.size) (hu : d0.dataU.size = s.ciU.size) (hdd : d0.dataD.size = s.n)
-    (hpiv : ∀ i, i < s.n → (factorizeNumeric s d0).dataD.getD i 0 ≠ 0)
+/-- blocked ILU, exactness of the factorisation for a ring with PARTIAL inverses (the situation of bs×bs blocks, `1 / ·`
+    being `Tiny::set_inverse`): the executed `factorizeNumeric` (merge pointers, `L_ij ← L_ij · D_jj⁻¹` from the right,
+    `w_ik -= L_ij · U_jk`, `D_ii ← 1 / D_ii`, all products in the order of the code) satisfies
+    `((I+L)(D+U))_{ic} = (input)_{ic}` on the pattern, provided (`hpiv`, DECIDABLE, evaluated by `drv_c08` on every blocked
+    ILU case) every stored inverted pivot block `v` is invertible with inverse `1 / v`, and (`hlaw`) the inversion routine
+    is an honest partial inverse ("if `1 / x` is invertible with inverse `1 / (1 / x)`, then it is the inverse of `x`").
+    Division rings satisfy `hlaw` (`PI.invLaw_divisionRing`), and so do genuine matrix blocks, see the next theorem. -/
+theorem C08.ilu_factor_blocked {α : Type} [Ring α] [Div α] (s : IluSym) (hs : s.wf = true) (hso : s.sorted = true)
+    (d0 : IluNum α) (hl : d0.dataL.size = s.ciL.size) (hu : d0.dataU.size = s.ciU.size) (hdd : d0.dataD.size = s.n)
+    (hlaw : ∀ x : α, ((1 / x) * (1 / (1 / x)) = 1 ∧ (1 / (1 / x)) * (1 / x) = 1) →
+      (x * (1 / x) = 1 ∧ (1 / x) * x = 1))
+    (hpiv : ∀ i, i < s.n → let v := (factorizeNumeric s d0).dataD.getD i 0; v * (1 / v) = 1 ∧ (1 / v) * v = 1)
     (i c : Nat) (hi : i < s.n) (hc : c < s.n) (hp : s.inPattern i c) :
     ∑ k ∈ range (min i c), (s.matL (factorizeNumeric s d0)).entry i k * (s.matU (factorizeNumeric s d0)).entry k c
       + (if c < i then (s.matL (factorizeNumeric s d0)).entry i c * (1 / (factorizeNumeric s d0).dataD.getD c 0)
          else if c = i then 1 / (factorizeNumeric s d0).dataD.getD i 0
          else (s.matU (factorizeNumeric s d0)).entry i c)
       = s.dense d0 i c :=
-  NC.ilu_factor_nc s hs hso d0 hl hu hdd hpiv i c hi hc hp
+  PI.ilu_factor_pi s hs hso d0 hl hu hdd hlaw hpiv i c hi hc hp
+
+/-- the same for GENUINE matrix blocks `Matrix (Fin bs) (Fin bs) K` over a field (with `x / y = x · y⁻¹`, Mathlib's
+    total inverse): only the decidable pivot hypothesis remains.  (The driver runs the model at its own core-only block
+    type `BMat bs` = row-major arrays with an exact inverse; that `BMat bs` is ring-isomorphic to this matrix ring is
+    not proved, it is what the case-by-case comparison with the real BCSR code and the dense oracle checks.) -/
+theorem C08.ilu_factor_matrix_blocks {bs : Nat} {K : Type} [Field K] (s : IluSym) (hs : s.wf = true)
+    (hso : s.sorted = true) (d0 : IluNum (PI.MatBlock bs K))
+    (hl : d0.dataL.size = s.ciL.size) (hu : d0.dataU.size = s.ciU.size) (hdd : d0.dataD.size = s.n)
+    (hpiv : ∀ i, i < s.n → let v := (factorizeNumeric s d0).dataD.getD i 0; v * (1 / v) = 1 ∧ (1 / v) * v = 1)
+    (i c : Nat) (hi : i < s.n) (hc : c < s.n) (hp : s.inPattern i c) :
+    ∑ k ∈ range (min i c), (s.matL (factorizeNumeric s d0)).entry i k * (s.matU (factorizeNumeric s d0)).entry k c
+      + (if c < i then (s.matL (factorizeNumeric s d0)).entry i c * (1 / (factorizeNumeric s d0).dataD.getD c 0)
+         else if c = i then 1 / (factorizeNumeric s d0).dataD.getD i 0
+         else (s.matU (factorizeNumeric s d0)).entry i c)
+      = s.dense d0 i c :=
+  PI.ilu_factor_matBlock s hs hso d0 hl hu hdd hpiv i c hi hc hp
+
+/-- **BCSR → scalar expansion commutes with apply.**  The blocked Jacobi / matrix / scale / diagonal objects are modelled
+    by running the scalar state machine on `expandCsr bs A`; this is justified against the C01 model of the BCSR
+    container: the expanded CSR matrix is well-formed, `SparseMatrixCSR::apply` on it returns exactly what
+    `SparseMatrixBCSR::apply` (`Bcsr.apply`, C01) returns, and `extract_diag` of the expansion is the pointwise diagonal
+    of the diagonal blocks (what the blocked `extract_diag` reads), for sorted block rows with stored diagonal block. -/
+theorem C08.expand_commutes {α : Type} [Field α] (tiny : α → Bool) (ht0 : tiny 0 = true) (bs : Nat) (A : Csr α)
+    (hB : (asBcsr bs A).wf = true) (hbs : 0 < bs) (x r : Array α) (hr : r.size = A.rows * bs)
+    (hx : x.size = A.cols * bs) :
+    (expandCsr bs A).wf = true ∧
+    (expandCsr bs A).apply tiny x r false = (asBcsr bs A).apply tiny x r false ∧
+    (A.rows = A.cols →
+      (∀ i, i < A.rows → ∀ k, A.rowPtr.getD i 0 ≤ k → k + 1 < A.rowPtr.getD (i + 1) 0 →
+        A.colInd.getD k 0 < A.colInd.getD (k + 1) 0) →
+      (∀ i, i < A.rows → ∃ k, A.rowPtr.getD i 0 ≤ k ∧ k < A.rowPtr.getD (i + 1) 0 ∧ A.colInd.getD k 0 = i) →
+      sortedDiag (expandCsr bs A) = true ∧
+      ∀ p, p < A.rows * bs → (extractDiag (expandCsr bs A)).getD p 0 = (asBcsr bs A).entry p p) :=
+  ⟨expandCsr_wf bs A hB hbs, expand_apply_eq tiny ht0 bs A hB hbs x r hr hx,
+    fun hsq hso hd => ⟨expandCsr_sortedDiag bs A hB hbs hsq hso hd,
+      fun p hp => expandCsr_extractDiag bs A hB hbs hsq hso hd p hp⟩⟩
+
+/-- **the input is not modified.**  `applyIO` is the pair of arrays (correction vector, defect vector) after
+    `apply(vec_cor, vec_def)`: for the out-of-place call the defect vector comes back exactly as passed in, for every
+    kind, state and filter, and the correction vector is the `applyStep` result all other theorems are about.  (On the
+    C++ side the harness compares the input vector and all matrix arrays bit by bit after every apply: flag `U1`.) -/
+theorem C08.input_not_modified {α : Type} [Field α] (tiny : α → Bool) (c : Cfg α) (A : Csr α) (st : PState α)
+    (x y x' : Array α) (h : applyIO tiny c A st false x = .ok (y, x')) :
+    x' = x ∧ applyStep tiny c A st x = .ok y :=
+  applyIO_input_unchanged tiny c A st x y x' h
+
+/-- the polynomial preconditioner the state machine runs (`polyApplyF`, with the `filter_def` of a mean filter inside
+    its loop) is the one of `C08.polynomial_spec` whenever that extra defect filter is the identity (unit / none
+    filters) -/
+theorem C08.polynomial_filter_link {α : Type} [Field α] (tiny : α → Bool) (m : Nat) (fidx : List Nat) (A : Csr α)
+    (invD x : Array α) : polyApplyF tiny m fidx some A invD x = polyApply tiny m fidx A invD x :=
+  polyApplyF_some tiny m fidx A invD x
+
+/-- `Tiny::Matrix::set_inverse` for the block sizes 1, 2, 3 (closed formulas of `Intern::InverseHelper`, modelled
+    statement by statement in `tinyInv` and run by the driver for these sizes): if the determinant it divides by is
+    non-zero, result · A = I and A · result = I. -/
+theorem C08.tiny_inverse_spec {α : Type} [Field α] (n : Nat) (hn : n = 1 ∨ n = 2 ∨ n = 3)
+    (other : Array α → Array α) (a : Array α) (hdet : tinyDet n a ≠ 0) (i j : Nat) (hi : i < n) (hj : j < n) :
+    (∑ k ∈ range n, (tinyInv n other a).getD (i * n + k) 0 * a.getD (k * n + j) 0) = (if i = j then 1 else 0) ∧
+    (∑ k ∈ range n, a.getD (i * n + k) 0 * (tinyInv n other a).getD (k * n + j) 0) = (if i = j then 1 else 0) :=
+  FeatModel.Solver.tiny_inverse_spec n hn other a hdet i j hi hj
 
 /-- SOR is linear in the input -/
 theorem C08.sor_linear {α : Type} [Field α] (ω : α) (hω : ω ≠ 0) (A : Csr α) (hA : sortedDiag A = true)
